@@ -247,6 +247,13 @@ def run(tier, seed):
     by = {r["id"]: r for r in srecs}
     free_stress(chk, [(st[0], by[1]), (st[1], by[2])], 25 if tier == "quick" else 300)
     chk.exhaustive = True
+    # random API sessions (loads, registrations, asserts through both routes, queries advanced step by
+    # step and abandoned between updates, clears) over unusual term shapes; decided by the machine
+    from .. import gen as _gen
+    _rnd = random.Random(seed * 7919 + 4)
+    _ss = [_gen.api_session(_rnd, engines=2, length=_rnd.randint(6, 14)) for _ in range(250 if tier == "quick" else 4000)]
+    for _i in range(0, len(_ss), 2500):
+        chk.machine_family("api-sessions-%d" % (_i // 2500), _ss[_i:_i + 2500], features=features)
     chk.assumptions = ["thread schedules finer than one API/generator step are sampled by the free-running runs, not enumerated",
                        "evaluate_bounded is excluded, as the property says"]
     return chk.finish()
